@@ -693,7 +693,7 @@ struct FnEmit
                         if (T && T != E) ok = false;
                         T = E;
                     }
-                if (!T && S1 && okS) T = S1;
+                if (!T && S1 && okS && getenv("VERIF_SCALARNEW")) T = S1;    // opt-in: typed pointer cells made the C14 histories 10x slower in symex
                 if (ok && T && T->isSized() && C.DL.getTypeAllocSize(T) == N->getZExtValue())
                 {
                     os << "  " << lhs << "(u8*)VERIF_NEW(" << C.ty(T) << ");\n";
